@@ -91,8 +91,8 @@ mod verif_cursor {
     #[kani::proof]
     #[kani::unwind(8)]
     fn cursor_multiline_pos() {
-        let reverse_col: u16 = kani::any();
-        let newlines_after_cursor: u16 = kani::any();
+        let reverse_col = kani::any();
+        let newlines_after_cursor = kani::any();
         kani::assume(newlines_after_cursor <= 3);
         run(TokPos::MultilineContent { reverse_col, newlines_after_cursor }, " {\n}", 1, MLC, Some(1), false, (1, 0, 0, 0));
     }
@@ -100,8 +100,8 @@ mod verif_cursor {
     #[kani::proof]
     #[kani::unwind(8)]
     fn cursor_multiline_pos_ignored() {
-        let reverse_col: u16 = kani::any();
-        let newlines_after_cursor: u16 = kani::any();
+        let reverse_col = kani::any();
+        let newlines_after_cursor = kani::any();
         kani::assume(newlines_after_cursor <= 3);
         run(TokPos::MultilineContent { reverse_col, newlines_after_cursor }, " {\n}", 1, MLC, Some(1), true, (0, 0, 0, 0));
     }
@@ -109,24 +109,24 @@ mod verif_cursor {
     #[kani::proof]
     #[kani::unwind(7)]
     fn cursor_ws_single() {
-        let col: u16 = kani::any();
-        let newlines_after_cursor: u16 = kani::any();
+        let col = kani::any();
+        let newlines_after_cursor = kani::any();
         run(TokPos::Whitespace { col, newlines_after_cursor }, "\n bc", 2, TokenType::Identifier, Some(1), false, (2, 1, 0, 1));
     }
 
     #[kani::proof]
     #[kani::unwind(7)]
     fn cursor_ws_single_ignored() {
-        let col: u16 = kani::any();
-        let newlines_after_cursor: u16 = kani::any();
+        let col = kani::any();
+        let newlines_after_cursor = kani::any();
         run(TokPos::Whitespace { col, newlines_after_cursor }, "\n bc", 2, TokenType::Identifier, Some(1), true, (1, 0, 0, 0));
     }
 
     #[kani::proof]
     #[kani::unwind(8)]
     fn cursor_ws_multiline_token() {
-        let col: u16 = kani::any();
-        let newlines_after_cursor: u16 = kani::any();
+        let col = kani::any();
+        let newlines_after_cursor = kani::any();
         run(TokPos::Whitespace { col, newlines_after_cursor }, "  {\n}", 2, MLC, Some(1), false, (1, 1, 0, 1));
     }
 
@@ -134,8 +134,8 @@ mod verif_cursor {
     #[kani::unwind(8)]
     fn cursor_ws_eof_token() {
         // cursor in the blanks before the end-of-file token
-        let col: u16 = kani::any();
-        let newlines_after_cursor: u16 = kani::any();
+        let col = kani::any();
+        let newlines_after_cursor = kani::any();
         run(TokPos::Whitespace { col, newlines_after_cursor }, " b", 1, TokenType::Identifier, Some(2), false, (1, 0, 0, 1));
     }
 }
